@@ -554,6 +554,7 @@ def extrude(vk, cfg):
     cell between two meridian planes), no unused points"""
     op, ct, variant = cfg["op"], cfg["ct"], cfg.get("variant")
     new_ct = {"vertex": "line", "line": "quad", "quad": "hexahedron"}[ct]
+    vk.note("C16 preconditions of the layer-stacking contracts (valid arguments): thickness / meridian-angle increments are positive (0 < dphi < 180 deg), the revolved section lies on the positive side of the axis of revolution, the cells spanned by fill_between are valid; with decreasing z or negative angles the real code returns negatively oriented cells (it never re-orders), which is outside these contracts")
     if op == "expand":
         vk.real(fm.expand)
         vk.real(fem.Mesh.expand)
@@ -748,7 +749,7 @@ for _n in dir(fem.element):
 
 MID_CFG = (
     [dict(ct=ct, stage=st) for ct in ("triangle", "quad", "tetra", "hexahedron") for st in ("edges", "faces", "edges+faces")]
-    + [dict(ct=ct, stage=st) for ct in ("tetra", "hexahedron") for st in ("volumes", "edges+faces+volumes")]
+    + [dict(ct=ct, stage=st) for ct in ("tetra", "hexahedron") for st in ("volumes", "edges+volumes", "edges+faces+volumes")]
     + [dict(ct=ct, stage="convert") for ct in ("triangle", "quad", "tetra", "hexahedron")]
 )
 
@@ -1152,6 +1153,7 @@ def generators(vk, cfg):
     if not vk.sym:
         return
     fam = cfg["family"]
+    vk.note("C16 bounded stand-ins (never counted): Grid, Circle, Triangle (needs counter-clockwise a, b, c), Lagrange generators, merge_duplicate_points(decimals) rounding path, scalar-argument linspace paths at concrete angles, runouts; a failing evaluation raises a refuted obligation `.../bounded/...` with the failing call")
     with symnp.native(), warnings.catch_warnings():
         warnings.simplefilter("ignore")
         _generators(vk, fam)
@@ -1381,7 +1383,8 @@ def generate(vk, cfg):
         t = ring.lift((xi + 1) / 2) if vk.sym else (xi + 1) / 2
         want = np.array([[a[i] + w[i] * t[j, i] for i in range(dim)] for j in range(len(xi))])
         ensures_same(vk, f"{gen}/one-cell-with-all-points", (m.cells.shape, sorted(m.cells[0].tolist())), ((1, (order + 1) ** dim), list(range(len(m.points)))))
-        vk.ensures_eq(f"{gen}/node-j==image-of-reference-node-j-of-the-Lagrange-element", m.points[m.cells[0]], want)
+        # the element's reference points are a float table (np.linspace): tolerance form, |a|, |w| <= 1 scale
+        vk.ensures_eq(f"{gen}/node-j==image-of-reference-node-j-of-the-Lagrange-element", m.points[m.cells[0]], want, tol=1e-12)
         ct = "quad" if dim == 2 else "hexahedron"
         nc = cells.NCORNER[ct]
         ensures_pos(vk, f"{gen}/corner-jacobians-positive", np.array(cells.corner_jacobians(ct, m.points[m.cells[0, :nc]])))
